@@ -422,6 +422,17 @@ func (env *specEnv) pkgMember(pkg *ssa.Package, name string) (Val, bool, error) 
 func (env *specEnv) loadAlloc(al *ssa.Alloc) Val {
 	a := env.a
 	if al.Heap {
+		if env.st == a.entry {
+			// old(...): the state at function entry, before the parameter was copied into its (captured, hence
+			// heap-allocated) cell: the parameter itself
+			for _, p := range a.fn.Params {
+				if p.Name() == al.Comment {
+					if v, ok := a.vals[p]; ok {
+						return v
+					}
+				}
+			}
+		}
 		pv, ok := a.vals[al]
 		if !ok {
 			return a.e.freshVal("undef."+al.Comment, al.Type().(*types.Pointer).Elem(), env.st)
@@ -982,6 +993,16 @@ func (env *specEnv) call(x *Expr) (Val, error) {
 			return Val{}, fmt.Errorf("samearr takes two slices")
 		}
 		return boolVal(and(eq(vs[0].T[0], vs[1].T[0]), eq(vs[0].T[1], vs[1].T[1]))), nil
+	case "sharearr":
+		// sharearr(s1, s2): the two slices have the same (non-nil) backing array
+		vs, err := evalArgs()
+		if err != nil {
+			return Val{}, err
+		}
+		if len(vs) != 2 || len(vs[0].T) != 4 || len(vs[1].T) != 4 {
+			return Val{}, fmt.Errorf("sharearr takes two slices")
+		}
+		return boolVal(and(eq(vs[0].T[0], vs[1].T[0]), not(eq(vs[0].T[0], intLit(0))))), nil
 	case "noalias":
 		// noalias(p1, ..., pn): the non-nil references among the arguments are pairwise different
 		vs, err := evalArgs()
@@ -1607,6 +1628,28 @@ func (env *specEnv) havocTarget(x *Expr, st *State) error {
 			for _, h := range hs {
 				e.heapReplace(st, h, e.cur.log.fresh(h, e.cur.heapSorts[h]))
 			}
+		}
+		return nil
+	}
+	if x.Op == "call" && x.Args[0].Op == "ident" && x.Args[0].Name == "entries" && len(x.Args) == 2 {
+		// entries(m): the key set and all values of map m
+		v, err := env.eval(x.Args[1])
+		if err != nil {
+			return err
+		}
+		mt, ok := v.Typ.Underlying().(*types.Map)
+		if !ok || v.T == nil {
+			return fmt.Errorf("entries() of non-map")
+		}
+		mh := e.mapHeaps(mt)
+		if mh == nil {
+			return fmt.Errorf("entries(): map with composite key")
+		}
+		dh := e.heapGet(st, mh.dom, mh.domSort)
+		e.heapSet(st, mh.dom, store(dh, v.T[0], e.cur.log.fresh("entries.dom", arrSort(mh.keySort, SBool))))
+		for i, name := range mh.val {
+			h := e.heapGet(st, name, mh.valSort[i])
+			e.heapSet(st, name, store(h, v.T[0], e.cur.log.fresh("entries.val", arrSort(mh.keySort, mh.vleaves[i].Sort))))
 		}
 		return nil
 	}
